@@ -1,5 +1,6 @@
 import GopModel.Driver.Loop
 import GopModel.Driver.DetSched
 import GopModel.Driver.LineDir
+import GopModel.Driver.Scope
 open GopModel.Driver
-def main : IO Unit := runDriver (dispatchWith [("sched", handleSched), ("posfor", handlePosFor), ("posfor1", handlePosFor1)])
+def main : IO Unit := runDriver (dispatchWith [("sched", handleSched), ("posfor", handlePosFor), ("posfor1", handlePosFor1), ("scope", handleScope)])
